@@ -365,6 +365,7 @@ func runC07Race(tier string, seed uint64) {
 		mpSlowPart("c07", kind)
 		c07MultipartRounds(kind, rng, 8)
 		c07CopyStorm(kind, 8, 12)
+		c07AutoBucketFirstUse(kind, 6)
 	}
 	c07Rounds("mem", rng, 8, 4, true)
 	c07VersionStress(rng, 8, 30)
@@ -385,6 +386,7 @@ func runC07(tier string, seed uint64) {
 			c07CopyWitness(kind)
 		}
 		c07CopyStorm(kind, 8, 12)
+		c07AutoBucketFirstUse(kind, 6)
 		for rep := 0; rep < reps; rep++ {
 			for _, width := range []int{2, 4, 6, 16} {
 				c07Rounds(kind, rng, rounds, width, false)
